@@ -122,6 +122,8 @@ type World struct {
 	newActor    int // actor that receives the next unknown conn.<cid> subscription
 	Script      []Op
 	SymScript   []Op // Script with connection ids in symbolic form (what replay files hold)
+	probeWS     *websocket.Conn
+	probePipe   net.Conn
 	Race        bool
 	stats       Stats
 	Failed      string // harness-level failure (inconclusive)
@@ -586,6 +588,12 @@ func (w *World) execOne(op Op) {
 	case "sleep":
 		time.Sleep(time.Duration(op.N) * time.Millisecond)
 	case "stop":
+		if op.O == "probe" {
+			// a WebSocket dial and an HTTP request arrive while Stop is in progress
+			w.mq.mu.Lock()
+			w.mq.closeHook = w.probeWhileStopping
+			w.mq.mu.Unlock()
+		}
 		if op.S != "" {
 			// an event is still being delivered while the messaging client closes
 			w.mq.DeliverDuringClose(op.S, []byte(op.P))
@@ -602,6 +610,40 @@ func (c *Client) write(b []byte) {
 	c.wmu.Lock()
 	defer c.wmu.Unlock()
 	c.ws.WriteMessage(websocket.TextMessage, b)
+}
+
+// probeWhileStopping is called from within the messaging client's Close, that
+// is while Service.Stop is in progress: a new HTTP request and a new WebSocket
+// handshake are attempted and their outcome logged (kind "stop_probe").
+func (w *World) probeWhileStopping() {
+	api := w.Cfg.APIPath
+	if api == "" {
+		api = "/api/"
+	}
+	if !strings.HasSuffix(api, "/") {
+		api += "/"
+	}
+	code := -1
+	rec := httptest.NewRecorder()
+	done := make(chan struct{})
+	go func() {
+		defer func() { recover(); close(done) }()
+		w.svc.ServeHTTP(rec, httptest.NewRequest("GET", api+"t/a", nil))
+	}()
+	select {
+	case <-done:
+		code = rec.Code
+	case <-time.After(300 * time.Millisecond):
+	}
+	d, pipe := newPipeDialer(http.HandlerFunc(w.svc.ServeHTTP))
+	d.HandshakeTimeout = 30 * time.Millisecond // a refused handshake is not answered at all: keep the wait short
+	ws, _, err := d.Dial("ws://example.org/ws", nil)
+	accepted := err == nil
+	if ws != nil {
+		w.probeWS = ws
+	}
+	w.probePipe = pipe
+	w.logMQ(LogEntry{Kind: "stop_probe", Code: code, Err: fmt.Sprintf("ws_accepted=%v", accepted)})
 }
 
 func (w *World) doConnect(op Op) {
@@ -900,6 +942,12 @@ func (w *World) doStart() {
 
 // Shutdown stops the gateway and closes all clients (end of a case).
 func (w *World) Shutdown() {
+	if w.probeWS != nil {
+		w.probeWS.Close()
+	}
+	if w.probePipe != nil {
+		w.probePipe.Close()
+	}
 	for _, c := range w.Clients {
 		if c.Dialed && !c.Closed {
 			c.Closed = true
